@@ -382,7 +382,11 @@ class CallMixin:
                 if isinstance(v, tuple) and v and v[0] == "default":
                     v = self.ev(v[1], st)
                 if p in c.params:
-                    v = self.coerce_to(st, v, self.parse_type(c.params[p]))
+                    pt = self.parse_type(c.params[p])
+                    if isinstance(v.t, TOpt) and not isinstance(pt, (TOpt, TOpaque)):
+                        # None passed where the callee computes with the value: TypeError in CPython
+                        v = self.need_value(v, st, node, f"argument {p}")
+                    v = self.coerce_to(st, v, pt)
                 env[p] = v
             pre = st.copy()
             pre.frames = [dict(env)]
